@@ -41,6 +41,7 @@ class UMNDirHandler(DirHandler):
         """Override parent to do a few more things and override sort order."""
         # Initialize.
         self.linkentries = []
+        self.linkfiles = []
 
         # Let the parent do the directory walking for us.  Will call
         # prep_initfiles_canaddfile and prep_entriesappend.
@@ -50,6 +51,19 @@ class UMNDirHandler(DirHandler):
             self.MergeLinkFiles()
             self.fileentries.sort(key=functools.cmp_to_key(self.entrycmp))
 
+    def prep_initfiles(self) -> None:
+        """Override the parent to read the link files it found in name
+        order, so that the result does not depend on the order in which
+        the operating system enumerates the directory."""
+        super().prep_initfiles()
+        for file in sorted(self.linkfiles):
+            try:
+                self.linkentries.extend(
+                    self.processLinkFile(self.selectorbase + "/" + file)
+                )
+            except OSError:
+                pass  # Unreadable or vanished link file: skip it.
+
     def prep_initfiles_canaddfile(self, ignorepatt, pattern, file) -> bool:
         """Override the parent to process dotfiles and keep them out
         of the list."""
@@ -58,12 +72,7 @@ class UMNDirHandler(DirHandler):
             # a link file.  If yes, process it and return false.
             if file[0] == ".":
                 if self.vfs.isfile(self.selectorbase + "/" + file):
-                    try:
-                        self.linkentries.extend(
-                            self.processLinkFile(self.selectorbase + "/" + file)
-                        )
-                    except OSError:
-                        pass  # Unreadable or vanished link file: skip it.
+                    self.linkfiles.append(file)  # A link file: read later.
                 return False  # Dot files, "dot dirs", dot specials: never listed.
             return True  # Not a dot file -- return true
         else:
